@@ -2,6 +2,7 @@
    complement of the recorded defect classes; the reference reading round-trips every value. *)
 From Coq Require Import List NArith ZArith Bool Lia.
 From Coq Require Import ZifyN ZifyNat ZifyBool.
+Ltac Zify.zify_post_hook ::= Z.div_mod_to_equations.
 From V.C14 Require Import JsonModel JsonSpec.
 Import ListNotations.
 Open Scope N_scope.
@@ -461,4 +462,105 @@ Proof.
       clear -Hx Hn. induction l as [|y l IHl]; [destruct Hx|]. cbn [forallb]. destruct Hx as [<-|Hx].
       * rewrite Hn. reflexivity.
       * rewrite (IHl Hx). apply andb_false_r.
+Qed.
+
+(* ------------------------------------------------------------------ the validator table = RFC 3629 *)
+Lemma utf8_valid_enc : forall cp r, scalar cp -> utf8_valid (utf8_enc cp ++ r) = utf8_valid r.
+Proof.
+  intros cp r [H1 H2]. unfold utf8_enc.
+  destruct (cp <? 128) eqn:E1.
+  { cbn [app utf8_valid]. rewrite E1. reflexivity. }
+  destruct (cp <? 2048) eqn:E2.
+  { cbn [app utf8_valid].
+    replace (192 + cp / 64 <? 128) with false by lia.
+    replace ((194 <=? 192 + cp / 64) && (192 + cp / 64 <=? 223)) with true by lia.
+    unfold cont. replace ((128 <=? 128 + cp mod 64) && (128 + cp mod 64 <=? 191)) with true by lia. reflexivity. }
+  destruct (cp <? 65536) eqn:E3.
+  { cbn [app utf8_valid].
+    replace (224 + cp / 4096 <? 128) with false by lia.
+    replace ((194 <=? 224 + cp / 4096) && (224 + cp / 4096 <=? 223)) with false by lia.
+    replace ((224 <=? 224 + cp / 4096) && (224 + cp / 4096 <=? 239)) with true by lia.
+    unfold cont.
+    replace ((128 <=? 128 + cp mod 64) && (128 + cp mod 64 <=? 191)) with true by lia.
+    destruct (224 + cp / 4096 =? 224) eqn:EA.
+    - replace ((160 <=? 128 + (cp / 64) mod 64) && (128 + (cp / 64) mod 64 <=? 191)) with true by lia. reflexivity.
+    - destruct (224 + cp / 4096 =? 237) eqn:EB.
+      + replace ((128 <=? 128 + (cp / 64) mod 64) && (128 + (cp / 64) mod 64 <=? 159)) with true by lia. reflexivity.
+      + replace ((128 <=? 128 + (cp / 64) mod 64) && (128 + (cp / 64) mod 64 <=? 191)) with true by lia. reflexivity. }
+  cbn [app utf8_valid].
+  replace (240 + cp / 262144 <? 128) with false by lia.
+  replace ((194 <=? 240 + cp / 262144) && (240 + cp / 262144 <=? 223)) with false by lia.
+  replace ((224 <=? 240 + cp / 262144) && (240 + cp / 262144 <=? 239)) with false by lia.
+  replace ((240 <=? 240 + cp / 262144) && (240 + cp / 262144 <=? 244)) with true by lia.
+  unfold cont.
+  replace ((128 <=? 128 + cp mod 64) && (128 + cp mod 64 <=? 191)) with true by lia.
+  replace ((128 <=? 128 + (cp / 64) mod 64) && (128 + (cp / 64) mod 64 <=? 191)) with true by lia.
+  destruct (240 + cp / 262144 =? 240) eqn:EA.
+  - replace ((144 <=? 128 + (cp / 4096) mod 64) && (128 + (cp / 4096) mod 64 <=? 191)) with true by lia. reflexivity.
+  - destruct (240 + cp / 262144 =? 244) eqn:EB.
+    + replace ((128 <=? 128 + (cp / 4096) mod 64) && (128 + (cp / 4096) mod 64 <=? 143)) with true by lia. reflexivity.
+    + replace ((128 <=? 128 + (cp / 4096) mod 64) && (128 + (cp / 4096) mod 64 <=? 191)) with true by lia. reflexivity.
+Qed.
+
+Lemma utf8_text_cons : forall cp r, scalar cp -> utf8_text r -> utf8_text (utf8_enc cp ++ r).
+Proof. intros cp r Hc (cps & Hs & ->). exists (cp :: cps). split; [constructor; assumption|reflexivity]. Qed.
+
+Lemma utf8_valid_text_n : forall n s, (length s <= n)%nat -> utf8_valid s = true -> utf8_text s.
+Proof.
+  induction n as [|n IH]; intros s Hl H.
+  { destruct s; [exists []; split; [constructor|reflexivity]|simpl in Hl; lia]. }
+  destruct s as [|b r]; [exists []; split; [constructor|reflexivity]|].
+  cbn [length] in Hl. cbn [utf8_valid] in H.
+  destruct (b <? 128) eqn:E1.
+  { assert (Hs : scalar b) by (unfold scalar; lia).
+    pose proof (utf8_text_cons b r Hs (IH r ltac:(lia) H)) as T. unfold utf8_enc in T. rewrite E1 in T. exact T. }
+  destruct ((194 <=? b) && (b <=? 223)) eqn:E2.
+  { destruct r as [|c1 r1]; [discriminate|]. apply andb_prop in H. destruct H as [Hc1 Hr]. unfold cont in Hc1.
+    cbn [length] in Hl.
+    set (cp := (b - 192) * 64 + (c1 - 128)).
+    assert (Hs : scalar cp) by (unfold scalar, cp; lia).
+    pose proof (utf8_text_cons cp r1 Hs (IH r1 ltac:(lia) Hr)) as T. unfold utf8_enc in T.
+    replace (cp <? 128) with false in T by (unfold cp; lia). replace (cp <? 2048) with true in T by (unfold cp; lia).
+    replace (192 + cp / 64) with b in T by (unfold cp; lia). replace (128 + cp mod 64) with c1 in T by (unfold cp; lia).
+    exact T. }
+  destruct ((224 <=? b) && (b <=? 239)) eqn:E3.
+  { destruct r as [|c1 [|c2 r2]]; try discriminate.
+    apply andb_prop in H. destruct H as [H Hr]. apply andb_prop in H. destruct H as [Hc1 Hc2]. unfold cont in *.
+    cbn [length] in Hl.
+    set (cp := (b - 224) * 4096 + (c1 - 128) * 64 + (c2 - 128)).
+    assert (Hb1 : 128 <= c1 /\ c1 <= 191 /\ (b = 224 -> 160 <= c1) /\ (b = 237 -> c1 <= 159)).
+    { destruct (b =? 224) eqn:EA; [lia|]. destruct (b =? 237) eqn:EB; lia. }
+    assert (Hs : scalar cp) by (unfold scalar, cp; lia).
+    pose proof (utf8_text_cons cp r2 Hs (IH r2 ltac:(lia) Hr)) as T. unfold utf8_enc in T.
+    replace (cp <? 128) with false in T by (unfold cp; lia). replace (cp <? 2048) with false in T by (unfold cp; lia).
+    replace (cp <? 65536) with true in T by (unfold cp; lia).
+    replace (224 + cp / 4096) with b in T by (unfold cp; lia).
+    replace (128 + (cp / 64) mod 64) with c1 in T by (unfold cp; lia).
+    replace (128 + cp mod 64) with c2 in T by (unfold cp; lia).
+    exact T. }
+  destruct ((240 <=? b) && (b <=? 244)) eqn:E4; [|discriminate].
+  destruct r as [|c1 [|c2 [|c3 r3]]]; try discriminate.
+  apply andb_prop in H. destruct H as [H Hr]. apply andb_prop in H. destruct H as [H Hc3].
+  apply andb_prop in H. destruct H as [Hc1 Hc2]. unfold cont in *.
+  cbn [length] in Hl.
+  set (cp := (b - 240) * 262144 + (c1 - 128) * 4096 + (c2 - 128) * 64 + (c3 - 128)).
+  assert (Hb1 : 128 <= c1 /\ c1 <= 191 /\ (b = 240 -> 144 <= c1) /\ (b = 244 -> c1 <= 143)).
+  { destruct (b =? 240) eqn:EA; [lia|]. destruct (b =? 244) eqn:EB; lia. }
+  assert (Hs : scalar cp) by (unfold scalar, cp; lia).
+  pose proof (utf8_text_cons cp r3 Hs (IH r3 ltac:(lia) Hr)) as T. unfold utf8_enc in T.
+  replace (cp <? 128) with false in T by (unfold cp; lia). replace (cp <? 2048) with false in T by (unfold cp; lia).
+  replace (cp <? 65536) with false in T by (unfold cp; lia).
+  replace (240 + cp / 262144) with b in T by (unfold cp; lia).
+  replace (128 + (cp / 4096) mod 64) with c1 in T by (unfold cp; lia).
+  replace (128 + (cp / 64) mod 64) with c2 in T by (unfold cp; lia).
+  replace (128 + cp mod 64) with c3 in T by (unfold cp; lia).
+  exact T.
+Qed.
+
+Lemma utf8_valid_iff_text_l : forall s, utf8_valid s = true <-> utf8_text s.
+Proof.
+  intros s. split.
+  - apply (utf8_valid_text_n (length s)). lia.
+  - intros (cps & Hs & ->). induction Hs as [|cp cps Hc Hcs IH]; [reflexivity|].
+    cbn [flat_map]. rewrite utf8_valid_enc by exact Hc. exact IH.
 Qed.
